@@ -27,7 +27,7 @@ def run(chk):
         "limit check before the next exit, at re-entry, or by an allow-listed pause; (limits) = C03.rp/rp2/rp3."
     )
     chk.not_decided = "absence of hangs and of super-linear work; exceptions of constructs outside the external-raiser table (e.g. IndexError on attacker-positioned indexes)."
-    chk.explanation += " Also decided: the obs-fold loop compares a running total with max_field_size."
+    chk.explanation += " Also decided: the obs-fold loop compares a running total with max_field_size. After the defect hunt: framing errors are published on the body stream in their wrapped form; limit violations inside a chunked body are re-raised by the head parser."
     chk.assumptions.append("external-raiser table of DESIGN section 2 is complete for what these parsers call; everything else is assumed not to raise")
     eff = Effects(repo, int_gate=lambda c: C01.int_cannot_raise(c, folder))
 
